@@ -1766,6 +1766,22 @@ func (m *Monitors) afterGC(h *H, repo string) {
 			}
 		}
 	}
+	// what a registered referrers response lists is referenced as long as the response is kept
+	if ents, err := h.srv.VerifIndexEntries(repo); err == nil {
+		for _, e := range ents {
+			if e[2] == "" {
+				continue
+			}
+			if g := h.do("GET", "/v2/"+repo+"/blobs/"+e[0], reqOpt{mode: "get"}); g.Status == 200 {
+				var idx types.Index
+				if json.Unmarshal(g.raw, &idx) == nil {
+					for _, c := range idx.Manifests {
+						referenced[c.Digest.String()] = true
+					}
+				}
+			}
+		}
+	}
 	for d, ok := range post.present {
 		if !ok || referenced[d] {
 			continue
